@@ -4,7 +4,8 @@ From stdpp Require Import gmap.
 From Coq Require Import ZArith Lia List.
 From V Require Import Base.Res Base.ResLemmas Sched.LedgerModel Sched.StmtModel Sched.GangModel
                       Sched.CycleModel Sched.LedgerInvP Sched.LedgerCodec Sched.CycleCodec
-                      Sched.QueueLemmasBase Sched.QueueLemmasReach Sched.QueueLemmas.
+                      Sched.QueueLemmasBase Sched.QueueLemmasReach Sched.QueueLemmas
+                      Sched.LedgerInv Sched.LedgerLemmasSess Sched.LedgerLemmasTxn Sched.LedgerLemmasEx Sched.QueueLemmasHeld.
 Import ListNotations.
 Open Scope Z_scope.
 
@@ -119,3 +120,94 @@ Example ex_balance :
   amt (share_of s' 1) DCpu - amt (share_of (w_sess ex_w) 1) DCpu
   = zsum (ev_signed (w_sess ex_w) 1 DCpu) [ev1].
 Proof. vm_compute. reflexivity. Qed.
+
+(* ---------- audit W1: the ledger covers the placed pods; a NON-EMPTY initial ledger ---------- *)
+
+Definition no_holdingb (s : sess) : bool := map_allb (fun _ t => negb (holds (t_status t))) (heap s).
+Lemma no_holdingb_ok s : no_holdingb s = true -> forall i t, heap s !! i = Some t -> holds (t_status t) = false.
+Proof. unfold no_holdingb. rewrite map_allb_spec. intros H i t Hl. apply negb_true_iff, (H i t Hl). Qed.
+
+(* the fresh cluster satisfies the full well-formedness (nothing placed yet, empty ledger) *)
+Example ex_world_ok_held : world_ok_held ex_w.
+Proof.
+  assert (Hs : sess_ok (w_sess ex_w)) by (apply sess_ok_of_bools; vm_compute; reflexivity).
+  destruct Hs as (Hl & Hwf & Hsv).
+  split; [exact ex_world_ok|]. split; [exact Hl|]. split; [exact Hwf|]. split; [exact Hsv|]. split.
+  - intros sid _. vm_compute. reflexivity.
+  - apply cover_no_holding; [vm_compute; reflexivity|apply no_holdingb_ok; vm_compute; reflexivity].
+Qed.
+
+(* the world after the first cycle: task 1 is Binding on node 1, the ledger of queue 1 holds its
+   9600 units -- a session that starts with a NON-EMPTY ledger and a pod in a holding status.  Its
+   well-formedness is not computed but DERIVED from the invariant theorems. *)
+Definition ex_w1 : world := CycleModel.run 2 ex_w ops1.
+
+Example ex_w1_ledger : held (w_sess ex_w1) 1 DCpu = 9600 /\ amt (share_of (w_sess ex_w1) 1) DCpu = 9600.
+Proof. vm_compute. split; reflexivity. Qed.
+
+Example ex_w1_ok_held : world_ok_held ex_w1.
+Proof.
+  pose proof (run_held 2 _ ops1 ex_w (world_ok_held_inv ex_w ex_world_ok_held)) as (Hg & _ & Hf & Hc).
+  split; [apply world_okb_ok; vm_compute; reflexivity|].
+  split; [exact (proj1 Hg)|]. split; [exact (proj1 (proj2 Hg))|]. split; [eapply good_saved_ok; exact Hg|].
+  split; assumption.
+Qed.
+
+(* second cycle from that session: task 2 (another 9600) is refused, 19200 > 16000; placing it is
+   not a behaviour of the model, and the placed pods stay at 9600 <= 16000 *)
+Definition ops4 : list cop := [CAttempt 1 [(2%positive, 1%positive)]].
+Example ex_second_cycle :
+  verdicts 2 ex_w1 ops4 = [VQueueRefuses 2] /\ held (w_sess (CycleModel.run 2 ex_w1 ops4)) 1 DCpu = 9600.
+Proof. vm_compute. split; reflexivity. Qed.
+
+(* the reviewer's counter-world: the same session with the ledger forgotten is NOT well-formed
+   any more (the old hypothesis world_ok accepted it and the old theorem was vacuous about it) *)
+Definition ex_w1_forgotten : world :=
+  mkWorld (upd_handlers (w_sess ex_w1) ∅ []) (w_queues ex_w1) (w_next_stmt ex_w1).
+Example ex_forgotten_ledger_rejected :
+  world_ok ex_w1_forgotten /\ (~ cover (w_sess ex_w1_forgotten)) /\
+  (verdicts 2 ex_w1_forgotten ops4 = [VOk]) /\
+  (held (w_sess (CycleModel.run 2 ex_w1_forgotten ops4)) 1 DCpu = 19200).
+Proof.
+  split; [apply world_okb_ok; vm_compute; reflexivity|]. split; [|vm_compute; split; reflexivity].
+  intros Hc. specialize (Hc 1%positive DCpu). vm_compute in Hc. apply Hc. reflexivity.
+Qed.
+
+(* the main theorem in the property's words, instantiated on the first cycle *)
+Example ex_placed_within_limit :
+  held (w_sess (CycleModel.run 2 ex_w ops1)) 1 DCpu <= 16000.
+Proof.
+  set (s' := w_sess (CycleModel.run 2 ex_w ops1)).
+  assert (Hh : exists t, heap s' !! 1%positive = Some t /\ t_req t = mk_req 600 100 0 /\ t_job t = 1%positive).
+  { vm_compute. eexists. repeat split. }
+  destruct Hh as (t & Hh & Hr & Hj).
+  refine (proj2 (placed_pods_within_limit 2 ex_w ops1 ex_world_ok_held [ev1] _ ev1 t 1%positive
+            (mkQ true (mkRes 16000 1600000 None) true) _ eq_refl Hh _ _ eq_refl) DCpu _).
+  - vm_compute. reflexivity.
+  - left.
+  - unfold queue_of. rewrite Hj. vm_compute. reflexivity.
+  - vm_compute. reflexivity.
+  - rewrite Hr. vm_compute. reflexivity.
+Qed.
+
+(* ---------- audit W7: backfill asks no vote ---------- *)
+(* a best-effort task (empty request) of a job of the CLOSED queue 2 is placed by backfill: the
+   action never consults ssn.Allocatable (backfill.go), so "not Open" and "leaf only" are not
+   enforced for best-effort pods -- they request nothing, which is why the property text
+   ("no pod with a non-zero request") and the first conjunct of the main theorem exempt them *)
+Definition ex_case_be : cycle_case :=
+  mkCycle 2
+    [mkNodeSpec 1 true 4000 100000 10 0]
+    [mkQSpec 1 true 1 0 0; mkQSpec 2 false 1 0 0]
+    [mkJobSpec 1 1 1 []; mkJobSpec 2 2 1 []]
+    [mkTaskSpec 1 2 1 0 0 0 0 Pending None false]
+    true [2] [(1%positive, mkRes 16000 1600000 None); (2%positive, mkRes 16000 1600000 None)] [].
+Definition ex_w_be : world := world_of ex_case_be.
+
+Example ex_backfill_places_in_closed_queue :
+  let s' := w_sess (CycleModel.run 2 ex_w_be [CBackfill 1 1]) in
+  verdicts 2 ex_w_be [CBackfill 1 1] = [VOk] /\
+  (exists t, heap s' !! 1%positive = Some t /\ t_best_effort t = true /\ t_status t = Binding /\
+             queue_of s' t = Some 2%positive) /\
+  (exists qa, w_queues ex_w_be !! 2%positive = Some qa /\ q_open qa = false).
+Proof. vm_compute. split; [reflexivity|]. split; eexists; repeat split. Qed.
